@@ -160,3 +160,7 @@ def run(cx):
         cx.ob("R16.drops", "%s|%s" % key, key in REVIEWED_DROPS,
               "a diagnostic-carrying Result is discarded (%s) at a site that is not in the reviewed table: a verdict "
               "that used to be propagated may now be lost" % how, f.loc(line), detail=REVIEWED_DROPS.get(key))
+    # ---- R16.every-selection-validated (shared with C08) ---------------------------------------------------
+    from props.sel_shared import every_selection_dispatched
+    every_selection_dispatched(cx, cx.mir("isograph_schema"), "R16.every-selection-validated")
+
